@@ -64,6 +64,55 @@ def sweep_case(T):
     return out + [("@sweep", "")]
 
 
+
+# ---- A2. piecewise-constant resonant drives: short strong segments next to long weak ones -------------------------------------
+PIECEWISE = [
+    [(4000, 0.05), (52, math.pi * 1000 / 52), (4000, 0.05), (1000, None)],
+    [(4000, 0.5), (52, math.pi * 1000 / 52), (4000, 0.5), (1000, None)],
+    [(2000, 0.2), (20, math.pi * 1000 / 40), (2000, 0.2), (500, None)],
+    [(1000, 1.0), (16, 30.0), (16, 60.0), (1000, 1.0), (300, None)],
+    [(3000, 0.1), (30, 25.0), (3000, 0.1)],
+    [(500, None), (3000, 0.3), (24, 40.0), (3000, 0.3), (500, None)],
+]
+
+
+def piecewise_cases(tier):
+    return [("piecewise", i, ev) for i in range(len(PIECEWISE)) for ev in ("Full", "Minimal", "v2")]
+
+
+def check_piecewise(i, ev):
+    """A resonant drive of constant phase rotates by the total area whatever its shape: P(r) = sin^2(area / 2)."""
+    from pulser import Pulse, Register, Sequence
+    from pulser.backend import StateResult
+    from pulser_simulation import QutipBackendV2, QutipConfig, QutipEmulator
+
+    seq = Sequence(Register({"q0": (0.0, 0.0)}), world_device())
+    seq.declare_channel("g", "rydberg_global")
+    area = 0.0
+    for dur, amp in PIECEWISE[i]:
+        if amp is None:
+            seq.delay(dur, "g")
+        else:
+            seq.add(Pulse.ConstantPulse(dur, amp, 0.0, 0.0), "g", "no-delay")
+            area += amp * dur * 1e-3
+    want = math.sin(area / 2) ** 2
+    try:
+        if ev == "v2":
+            res = QutipBackendV2(seq, config=QutipConfig(observables=[StateResult()])).run()
+            st = res.get_result("state", res.get_result_times("state")[-1]).to_qobj().full().ravel()
+        else:
+            sim = QutipEmulator.from_sequence(seq)
+            sim.set_evaluation_times(ev)
+            st = sim.run().states[-1].full().ravel()
+    except Exception as e:
+        return [(f"C11:piecewise-drive-raises:{ev}:{type(e).__name__}", f"segments {PIECEWISE[i]}: {e}"[:200])]
+    got = float(abs(st[0]) ** 2)
+    # the sampled drive is piecewise constant per ns: exact up to the solver tolerance and the one padded sample
+    if abs(got - want) > 2e-3:
+        return [(f"C11:piecewise-resonant-drive:{ev}", f"segments {PIECEWISE[i]}: P(r) = {got:.6f}, sin^2(area/2) = {want:.6f} (area {area:.4f})")]
+    return [("@piecewise", "")]
+
+
 # ---- B. physicality under noise / idle / evaluation times -----------------------------------------------
 NOISES = {
     "none": {},
@@ -787,6 +836,8 @@ def worker(case):
             return check_phys(*case[1:])
         if k == "reduce":
             return check_reduce(*case[1:])
+        if k == "piecewise":
+            return check_piecewise(*case[1:])
         if k == "conv":
             return check_conv(*case[1:])
         if k == "convsup":
@@ -800,7 +851,7 @@ def run(tier, seed):
     res = Result("exploration")
     nmax = 1500 if tier == "quick" else 12000
     cases = [("sweep", T) for T in range(4, nmax + 1)]
-    cases += phys_cases(tier) + reduce_cases(tier) + conv_cases(tier) + tape_cases(tier) + legacy_tape_cases(tier) + stoch_cases(tier) + emu_history_cases(tier)
+    cases += piecewise_cases(tier) + phys_cases(tier) + reduce_cases(tier) + conv_cases(tier) + tape_cases(tier) + legacy_tape_cases(tier) + stoch_cases(tier) + emu_history_cases(tier)
     outs = gridx.run(worker, cases, chunksize=8)
     classes = {}
     for c, r in zip(cases, outs):
@@ -810,7 +861,7 @@ def run(tier, seed):
             else:
                 res.add(Violation(fp, d, {"engine": "emux", "case": repr(c)}))
     res.coverage = dict(
-        evaluations=len(cases), distinct_nontrivial=sum(classes.get(k, 0) for k in ("@sweep", "@phys", "@conv", "@tape", "@ltape", "@stoch", "@emuhist", "@reduce")), exhaustive=True,
+        evaluations=len(cases), distinct_nontrivial=sum(classes.get(k, 0) for k in ("@sweep", "@phys", "@conv", "@tape", "@ltape", "@stoch", "@emuhist", "@reduce", "@piecewise")), exhaustive=True,
         outcome_classes=classes, durations_swept=[4, nmax],
         rule="(A) every integer duration 4..N of a resonant constant pulse on a clock-1 device: legacy emulator norm and analytic Rabi "
              "population, V2 backend returns and stores the same final state; (B) 8 programs (Rabi, idle, detuned, two atoms, digital, "
